@@ -47,3 +47,41 @@ Print Assumptions C01_legal_moves_exact_spec.
 Print Assumptions C01_engine_legal_agrees.
 Print Assumptions C01_perft_exact.
 Print Assumptions C01_make_preserves_legal_pos.
+
+(* ---- appended by tools/mkprops.py: Glue ---- *)
+(** Glue: the C01 theorems restated on the position model's own maintained bitboards and its own DoMove as legality test, for every reachable legal position (GlueView.v) *)
+From Coq Require Import NArith ZArith List Bool Permutation.
+From FG Require Import Geom Rules FenSpec BitView AttacksImpl MoveEnc MovegenImpl PosImpl PosTabs PosProofsA PosProofsB PosProofsC PosProofs GlueView.
+Import ListNotations.
+
+Theorem C01_pseudo_ipos :
+  forall (prom_nq : bool) (t : tabs) (p : ipos),
+         Reach t p ->
+         legal_pos (abs p) = true ->
+         exists l : list N,
+           gen_pseudo prom_nq (view_of_ipos p) 3 false = Some l /\
+           Permutation l (map code (pseudo (abs p))) /\ NoDup l.
+Proof. exact pseudo_ipos. Qed.
+
+Theorem C01_legal_moves_exact_ipos :
+  forall (prom_nq : bool) (t : tabs) (p : ipos),
+         Reach t p ->
+         legal_pos (abs p) = true ->
+         exists l : list N,
+           gen_legal prom_nq (MovegenProofsLegal.eng_legal (abs p)) (view_of_ipos p) 3 = Some l /\
+           Permutation l (map code (legal (abs p))) /\ NoDup l.
+Proof. exact legal_moves_exact_ipos. Qed.
+
+Theorem C01_legal_moves_ipos :
+  forall (prom_nq : bool) (t : tabs) (p : ipos),
+         Reach t p ->
+         legal_pos (abs p) = true ->
+         room p ->
+         exists l : list N,
+           gen_legal prom_nq (eng_legal_ipos t p) (view_of_ipos p) 3 = Some l /\
+           Permutation l (map code (legal (abs p))) /\ NoDup l.
+Proof. exact legal_moves_ipos. Qed.
+
+Print Assumptions C01_pseudo_ipos.
+Print Assumptions C01_legal_moves_exact_ipos.
+Print Assumptions C01_legal_moves_ipos.
